@@ -38,7 +38,7 @@ FLOORS = {"quick": {"sink_acks_checked": 30000, "sink_sequences": 5000, "sender_
                        "faults_applied": 80000, "data_drops_applied": 30000, "ack_drops_applied": 30000, "delays_applied": 40000,
                        "timeouts_seen": 30000, "fast_retransmits_seen": 2000, "lossfree_runs": 60,
                        "exhaustive_spaces": 40, "cc_TCPCubic": 10000, "cc_TCPReno": 10000}}
-KEYS = tuple(FLOORS["quick"].keys()) + ("unusual_config_runs", "sink_long_hole_sequences", "random_pattern_runs", "dup_transmissions", "drained_after_completion")
+KEYS = tuple(FLOORS["quick"].keys()) + ("unusual_config_runs", "sink_long_hole_sequences", "random_pattern_runs", "dup_transmissions", "drained_after_completion", "slow_path_runs")
 MSS = 512
 
 
@@ -327,6 +327,14 @@ def run_shard(ctx):
                 "rtt0": rng.choice([1.0, 0.01]), "data_drops": [], "ack_drops": []}
         sender_case(case, stats, mk_bad(case))
         stats["unusual_config_runs"] += 1
+        ctx.case_done(case, True)
+    # very slow loss-free paths: round-trip times of minutes, still below the sender's RTO (a large initial estimate)
+    for j in range(4 if ctx.tier == "quick" else 24):
+        case = {"kind": "sender", "n": rng.choice([4, 8, 12]), "cc": ["TCPReno", "TCPCubic"][j % 2], "delay": rng.choice([70.0, 100.0, 150.0, 400.0]),
+                "rtt0": rng.choice([900.0, 1500.0]), "data_drops": [], "ack_drops": []}
+        sender_case(case, stats, mk_bad(case))
+        stats["unusual_config_runs"] += 1
+        stats["slow_path_runs"] += 1
         ctx.case_done(case, True)
     # random patterns on longer flows
     rng = ctx.rng("rand")
